@@ -34,7 +34,8 @@ class EventManager(MpfController):
 
     config_name = "event_manager"
 
-    __slots__ = ["registered_handlers", "event_queue", "callback_queue", "monitor_events", "_queue_tasks", "_stopped"]
+    __slots__ = ["registered_handlers", "event_queue", "callback_queue", "monitor_events", "_queue_tasks", "_stopped",
+                 "_processing_queue"]
 
     def __init__(self, machine: "MachineController") -> None:
         """Initialize EventManager."""
@@ -46,6 +47,7 @@ class EventManager(MpfController):
         self.monitor_events = False
         self._queue_tasks = []              # type: List[asyncio.Task]
         self._stopped = False
+        self._processing_queue = False
 
         self.add_handler("debug_dump_stats", self._debug_dump_events)
 
@@ -839,42 +841,53 @@ class EventManager(MpfController):
 
     def process_event_queue(self) -> None:
         """Check if there are any other events that need to be processed, and then process them."""
-        inner_queue = deque()   # type: Deque[Deque[PostedEvent]]
-        while self.event_queue or self.callback_queue:
-            # first process all events. if they post more events we will
-            # process them in the same loop.
-            if self.event_queue:
-                next_queue = self.event_queue
-                self.event_queue = deque()
-                while next_queue:
-                    # remember the previous queue since events might be posted in this handler
+        if self._processing_queue:
+            # called from a handler or callback, i.e. from inside the loop below. events are processed serially:
+            # the running invocation will process everything which is queued (in order). processing the queues
+            # here would nest handlers of different events and run callbacks of events whose children are still
+            # waiting.
+            return
 
-                    event = next_queue.popleft()
-                    if not next_queue and inner_queue:
-                        next_queue = inner_queue.popleft()
+        self._processing_queue = True
+        try:
+            inner_queue = deque()   # type: Deque[Deque[PostedEvent]]
+            while self.event_queue or self.callback_queue:
+                # first process all events. if they post more events we will
+                # process them in the same loop.
+                if self.event_queue:
+                    next_queue = self.event_queue
+                    self.event_queue = deque()
+                    while next_queue:
+                        # remember the previous queue since events might be posted in this handler
 
-                    if event.type == "queue":
-                        self._process_queue_event(event=event[0],
-                                                  callback=event[2],
-                                                  **event[3])
-                    else:
-                        self._process_event(event=event[0],
-                                            ev_type=event[1],
-                                            callback=event[2],
-                                            **event[3])
+                        event = next_queue.popleft()
+                        if not next_queue and inner_queue:
+                            next_queue = inner_queue.popleft()
 
-                    # make sure the handler created during this handler are called first
-                    if self.event_queue:
-                        inner_queue.appendleft(next_queue)
-                        next_queue = self.event_queue
-                        self.event_queue = deque()
+                        if event.type == "queue":
+                            self._process_queue_event(event=event[0],
+                                                      callback=event[2],
+                                                      **event[3])
+                        else:
+                            self._process_event(event=event[0],
+                                                ev_type=event[1],
+                                                callback=event[2],
+                                                **event[3])
 
-            # when all events are processed run the _last_ callback. afterwards
-            # continue with the loop and run all events. this makes sure all
-            # events are completed before running the callback
-            if self.callback_queue:
-                callback, kwargs = self.callback_queue.pop()
-                callback(**kwargs)
+                        # make sure the handler created during this handler are called first
+                        if self.event_queue:
+                            inner_queue.appendleft(next_queue)
+                            next_queue = self.event_queue
+                            self.event_queue = deque()
+
+                # when all events are processed run the _last_ callback. afterwards
+                # continue with the loop and run all events. this makes sure all
+                # events are completed before running the callback
+                if self.callback_queue:
+                    callback, kwargs = self.callback_queue.pop()
+                    callback(**kwargs)
+        finally:
+            self._processing_queue = False
 
 
 class QueuedEvent:
